@@ -173,8 +173,25 @@ def template(t, cls, **sel):
     return None
 
 
+def hard(i, j, ri, cls):
+    """automorphism groups of cages / symmetric skeletons and enumerations between WL-equivalent skeletons"""
+    cname = gl.CLS_NAMES[cls]
+    sa_spec, sb_spec = tmpl.skeleton(cname, i, 0), tmpl.skeleton(cname, j, ri)
+    ga, gb = gl.build(sa_spec), gl.build(sb_spec)
+    msg = _enumerate(ga, gb, gl.snap(ga), gl.snap(gb), f"{tmpl.SKELETON_NAMES[i]} vs {tmpl.SKELETON_NAMES[j]}(renumbering {ri})", i == j and ri == 0)
+    if msg:
+        return msg
+    if cname == "SMG" and i == j:
+        return _symmetry_number(ga, gl.snap(ga))
+    return None
+
+
 def plan(tier, seed):
     units = []
+    nsk = len(tmpl.SKELETON_NAMES)
+    units.append(Sel(name="hard_skeletons", func="vp.props.C05:hard",
+                     params={"i": (0, nsk), "j": (0, nsk), "ri": (0, 3 if tier == "quick" else 8), "cls": (0, 2)},
+                     pre=["i == j or (i, j) in ((1, 2), (2, 1), (3, 4), (4, 3), (7, 8), (8, 7), (7, 9), (9, 8))"], shard_by=[], timeout=1500, nontrivial="ri > 0"))
     for cname in gl.CLS_NAMES:
         k = 4 if (tier == "thorough" and cname == "MG") else 3
         u = C02._small_unit(cname, k, "quick" if k == 3 else "thorough", f"vp.props.C05:small{k}")
